@@ -7,8 +7,12 @@
        SrvRecvCall / SrvRecvRet(m) / SrvRecvCancel     the framework's use of the server's receive()
        SrvSend(t)                     send / close handed to the server
        SrvRecvFail                    the server's receive() raised into the framework (injected fault)
-       AppCall(op) / AppRet(op, r, p) application call and its return (r: message, 0 disconnected,
-                                      -2 ok, -3 cancelled, -9 unexpected exception; p: stray tasks)
+       AppCall(op, b) / AppRet(op, r, p) application call and its return (r: message, 0 disconnected,
+                                      -2 ok, -3 cancelled, -4 the server refused the close event,
+                                      -9 unexpected exception; p: stray tasks; b = 1 on a close call:
+                                      the server will refuse its close event)
+       RespEnd                        the responder is over (returned, or let WebSocketDisconnected propagate)
+       AppReturn(r, p, o)             the ASGI application callable has returned (r = -9: it raised)
        Cancel                         the pending receive was cancelled
        End(p, o, b) / Final(p, o)     quiescence after the script (b = 1: the system never became quiet) /
                                       after the framework's own close
@@ -22,13 +26,14 @@
      P:fifo, P:recv, P:recv_error, P:disconnect_before_messages, P:recv_disconnect
      P:bound, P:pull_after_disconnect, P:pull, P:pull_without_receive, P:reader_cancelled
      P:send_after_disconnect, P:send_spurious_disconnect, P:send_error, P:close_error
-     P:left_waiting, P:left_running
+     P:left_waiting, P:left_running, P:left_running_after_app, P:app_error, P:close_spurious_failure
      D:busy_wait      (detail: something keeps polling although nothing is owed to the application)
      D:pump_stalled   (detail: the reader did not resume although no receive was waiting)
      D:close_order    (detail: the reader was cancelled before, not after, the close event was sent)
      D:wire           (detail: a send/close event the model does not expect at this point)
    "Nothing is left running" is judged when close() has RETURNED (AppRet close: no stray task, no
-   receive() outstanding) and at End / Final - not at the instant the close event goes on the wire.
+   receive() outstanding), when the application callable has returned (AppReturn: the same) and at
+   End / Final - not at the instant the close event goes on the wire.
      H:*              (the harness contradicts itself: machinery failure) *)
 EXTENDS WsBuffer, Json, IOUtils
 
@@ -74,7 +79,8 @@ JCallRecv   == /\ Is("AppCall") /\ Ev.op = "recv" /\ rpc = "idle" /\ ~rdue
                /\ Logged /\ UNCHANGED <<wdue, wire, creq, rawc>>
 JCallWrite  == /\ Is("AppCall") /\ Ev.op \in {"send", "close"} /\ wpc = "idle" /\ ~wdue
                /\ \/ Ev.op = "send" /\ AppSend
-                  \/ Ev.op = "close" /\ AppClose
+                  \/ Ev.op = "close" /\ Ev.b = 0 /\ AppClose
+                  \/ Ev.op = "close" /\ Ev.b = 1 /\ AppCloseF
                /\ wdue' = WReturned
                /\ wire' = (IF wpc' \in {"sending", "closeSending"} THEN "due" ELSE "none")
                /\ Logged /\ UNCHANGED <<rdue, creq, rawc>>
@@ -91,6 +97,13 @@ JRetSend    == Is("AppRet") /\ ~wdue /\ Ev.op = "send" /\ Ev.r = OKR /\ wire = "
                /\ SendRet /\ wire' = "none" /\ Logged /\ UNCHANGED <<rdue, wdue, creq, rawc>>
 JRetClose   == Is("AppRet") /\ ~wdue /\ Ev.op = "close" /\ Ev.r = OKR /\ Ev.p = 0 /\ ~pcancel /\ pull # "pump"
                /\ CloseFinish /\ wire' = "none" /\ Logged /\ UNCHANGED <<rdue, wdue, creq, rawc>>
+JRetCloseF  == Is("AppRet") /\ ~wdue /\ Ev.op = "close" /\ Ev.r = SENDFAIL /\ wire = "done"    \* the refused close:
+               /\ CloseSendFail /\ wire' = "none" /\ Logged /\ UNCHANGED <<rdue, wdue, creq, rawc>>   \* nothing else changed
+JRespEnd    == Is("RespEnd") /\ ~rdue /\ ~wdue /\ RespEnd
+               /\ wire' = (IF wpc' = "closeSending" THEN "due" ELSE "none")
+               /\ Logged /\ UNCHANGED <<rdue, wdue, creq, rawc>>
+JAppReturn  == Is("AppReturn") /\ Ev.r # ERR /\ Ev.p = 0 /\ Ev.o = 0 /\ AppReturn /\ PumpGone
+               /\ Logged /\ UNCHANGED jx
 JWireSend   == Is("SrvSend") /\ Ev.t = "send" /\ wpc = "sending" /\ wire = "due"
                /\ wire' = "done" /\ UNCHANGED vars /\ Logged /\ UNCHANGED <<rdue, wdue, creq, rawc>>
 JWireClose  == Is("SrvSend") /\ Ev.t = "close" /\ wpc = "closeSending" /\ wire = "due"
@@ -104,7 +117,8 @@ SilentEnabled ==
     \/ pcancel /\ ppc \in Live /\ pull # "pump"
     \/ rpc = "recvLoop" /\ queue = <<>> /\ ~PumpEnded
     \/ rpc = "recvWait" /\ popW = "set"
-    \/ wpc = "closeSending" /\ wire = "done"
+    \/ wpc = "closeSending" /\ wire = "done" /\ ~cfail
+    \/ apc = "ending" /\ wpc = "closing" /\ ~pcancel
 SPumpDone   == Silent /\ disc /\ PumpLoop
 SPumpCheck  == Silent /\ PumpCheck
 SPumpWake   == Silent /\ PumpWake
@@ -112,11 +126,13 @@ SPumpCancel == Silent /\ pull # "pump" /\ PumpCancelled
 SRecvWait   == Silent /\ rpc = "recvLoop" /\ queue = <<>> /\ ~PumpEnded /\ RecvLoop
 SRecvWake   == Silent /\ rpc = "recvWait" /\ popW = "set" /\ RecvWake
 SCloseSent  == Silent /\ wire = "done" /\ CloseSent     \* the server's send(close) returned; only now is the pump cancelled
+SCloseFin   == Silent /\ apc = "ending" /\ CloseFinish  \* the framework's own close returned (no AppRet is logged for it)
 
 (* ---------------- end of script: quiescence ---------------- *)
 LegitWait == Waiting /\ Quiet /\ ~rdue /\ ~creq /\ queue = <<>> /\ avail = <<>> /\ inhand = NIL
 EndVerdict ==
-    IF rdue \/ wdue \/ wpc \in {"sending", "closeSending", "closing"} \/ (Waiting /\ ~LegitWait) THEN "P:left_waiting"
+    IF rdue \/ wdue \/ wpc \in {"sending", "closeSending", "closing"} \/ (Waiting /\ ~LegitWait) \/ apc = "ending"
+        THEN "P:left_waiting"
     ELSE IF wpc = "closed" /\ (Ev.p > 0 \/ pull = "pump" \/ (Ev.o > 0 /\ pull # "app")) THEN "P:left_running"
     ELSE IF ~Quiet THEN "D:pump_stalled"
     ELSE IF Ev.b > 0 THEN "D:busy_wait"
@@ -129,8 +145,8 @@ JFinal == Is("Final") /\ verdict' = (IF Ev.p > 0 \/ Ev.o > 0 THEN "P:left_runnin
 
 LoggedNext == JArrive \/ JSrvFail \/ JPumpCall \/ JRawCall \/ JPumpGot \/ JRawGot \/ JPumpCancel \/ JRawCancel
               \/ JCallRecv \/ JCallWrite \/ JRetDueR \/ JRetDueW \/ JRetRecv \/ JRetCancel \/ JRetSend \/ JRetClose
-              \/ JWireSend \/ JWireClose \/ JCancel \/ JEnd \/ JFinal
-SilentNext == SPumpDone \/ SPumpCheck \/ SPumpWake \/ SPumpCancel \/ SRecvWait \/ SRecvWake \/ SCloseSent
+              \/ JWireSend \/ JWireClose \/ JCancel \/ JEnd \/ JFinal \/ JRetCloseF \/ JRespEnd \/ JAppReturn
+SilentNext == SPumpDone \/ SPumpCheck \/ SPumpWake \/ SPumpCancel \/ SRecvWait \/ SRecvWake \/ SCloseSent \/ SCloseFin
 
 (* ---------------- the clause a stuck run reports ---------------- *)
 NextMsg == Cardinality({i \in 1..Len(taken) : taken[i] # DISC}) + 1
@@ -146,8 +162,12 @@ Clause ==
       [] Ev.e = "Arrive" -> "H:arrive"
       [] Ev.e = "AppCall" -> "H:appcall"
       [] Ev.e = "Cancel" -> "H:cancel"
-      [] Ev.e = "SrvRecvCancel" ->     \* cancelling the pump BEFORE the wire close also satisfies the property: detail
-            IF wpc = "closeSending" /\ wire = "due" /\ pull = "pump" THEN "D:close_order" ELSE "P:reader_cancelled"
+      [] Ev.e = "SrvRecvCancel" ->     \* cancelling the pump BEFORE the wire close also satisfies the property: detail -
+                                      \* unless the close event is refused (the connection stays accepted) and the
+                                      \* application goes on receiving from a connection that has lost its reader
+            IF wpc = "closeSending" /\ wire = "due" /\ pull = "pump"
+                 /\ ~(cfail /\ \E j \in (l + 1)..Len(T.ev) : T.ev[j].e = "AppCall" /\ T.ev[j].op = "recv")
+            THEN "D:close_order" ELSE "P:reader_cancelled"
       [] Ev.e = "SrvSend" ->
             IF Ev.t = "send" /\ wlast = Res("send", DISC) /\ wdue THEN "P:send_after_disconnect"
             ELSE "D:wire"
@@ -164,7 +184,14 @@ Clause ==
             ELSE IF wdue /\ wlast = Res("send", DISC) THEN "P:send_after_disconnect"
             ELSE "P:send"
       [] Ev.e = "AppRet" /\ Ev.op = "close" ->
-            IF Ev.r = ERR THEN "P:close_error" ELSE "P:left_running"
+            IF Ev.r = ERR THEN "P:close_error"
+            ELSE IF Ev.r = SENDFAIL THEN "P:close_spurious_failure"     \* close() raised the server's error although
+            ELSE "P:left_running"                                      \* no close event of it was refused
+      [] Ev.e = "RespEnd" -> "H:respend"
+      [] Ev.e = "AppReturn" ->
+            IF apc # "ending" THEN "H:appreturn"
+            ELSE IF Ev.r = ERR THEN "P:app_error"
+            ELSE "P:left_running_after_app"
       [] Ev.e = "End" -> "H:silent_bound"
       [] OTHER -> "H:event"
 
